@@ -1,5 +1,184 @@
 package main
 
-import "github.com/semihalev/sdns/zzverif/vlib"
+// Part B — audiences. Under an enabled, valid policy a handful of client
+// identities whose subnets differ at bit positions around the forwarding
+// ceiling and the scope floor query a handful of names whose scripted
+// authority declares scopes from 0 to source+8 (also for a foreign address,
+// also none). Episodes: fill, re-ask from inside and outside the audience,
+// advance virtual time into the prefetch window, re-ask, advance past the
+// scoped TTL cap, re-ask. The judgements are the shared ones in judge.go.
 
-func runPartB(r *vlib.Run) {}
+import (
+	"fmt"
+	"math/rand/v2"
+	"net/netip"
+
+	"github.com/miekg/dns"
+
+	"github.com/semihalev/sdns/zzverif/vlib"
+)
+
+type ident struct {
+	client string
+	opts   []OptSpec
+	edns   bool
+	entry  string
+	proto  string
+}
+
+func flip(b []byte, pos int) {
+	if pos >= 0 && pos < len(b)*8 {
+		b[pos/8] ^= byte(0x80 >> (pos % 8))
+	}
+}
+
+func clampInt(v, lo, hi int) int {
+	if v < lo {
+		return lo
+	}
+	if v > hi {
+		return hi
+	}
+	return v
+}
+
+func eligibleClient(rng *rand.Rand, p PolicySpec, want bool) string {
+	m := newModel(p)
+	for i := 0; i < 200; i++ {
+		c := genClient(rng, p)
+		if m.eligible(c) == want {
+			return c
+		}
+	}
+	return ""
+}
+
+func genIdents(rng *rand.Rand, p PolicySpec) []ident {
+	m := newModel(p)
+	var out []ident
+	for fam := 1; fam <= 2; fam++ {
+		n, ceil, floor := 4, m.c4, m.f4
+		if fam == 2 {
+			n, ceil, floor = 16, m.c6, m.f6
+		}
+		nb := n * 8
+		base := randBytes(rng, n)
+		if rng.IntN(2) == 0 {
+			if fam == 1 {
+				copy(base, []byte{198, 51, 100})
+			} else {
+				copy(base, []byte{0x20, 0x01, 0x0d, 0xb8})
+			}
+		}
+		eff := min(ceil, floor)
+		pos := []int{ceil - 1, ceil, ceil + 1, floor - 1, floor, floor + 1, eff - 1, eff - 2, eff - 4, eff - 9, 0, 1, nb - 1}
+		for k := 0; k < 6; k++ {
+			a := append([]byte(nil), base...)
+			switch k {
+			case 0:
+			case 1:
+				flip(a, clampInt(ceil+rng.IntN(nb-ceil+1), 0, nb-1)) // beyond the ceiling: same forwarded prefix (unless ceil == nb)
+			default:
+				flip(a, clampInt(pick(rng, pos), 0, nb-1))
+				if rng.IntN(3) == 0 {
+					flip(a, clampInt(pick(rng, pos), 0, nb-1))
+				}
+			}
+			mask := clampInt(pick(rng, []int{ceil, ceil, ceil + 3, nb, nb, ceil - 2, floor, eff, eff - 1, rng.IntN(nb + 1)}), 0, nb)
+			// host bits beyond the mask: set them (must never matter)
+			if rng.IntN(2) == 0 {
+				for i := mask; i < nb; i++ {
+					a[i/8] |= byte(0x80 >> (i % 8))
+				}
+			}
+			d := append([]byte{0, byte(fam), byte(mask), 0}, a...)
+			entry, proto := genEntry(rng)
+			id := ident{client: eligibleClient(rng, p, true), edns: true, entry: entry, proto: proto}
+			if id.client == "" {
+				continue
+			}
+			id.opts = append(genOtherOpts(rng), optHex(dns.EDNS0SUBNET, d))
+			out = append(out, id)
+		}
+	}
+	// a client that sends no subnet option, one without EDNS, and (when the
+	// policy restricts networks) one that is not eligible but sends one
+	e1, p1 := genEntry(rng)
+	if c := eligibleClient(rng, p, true); c != "" {
+		out = append(out, ident{client: c, edns: true, entry: e1, proto: p1, opts: genOtherOpts(rng)})
+		out = append(out, ident{client: c, edns: false, entry: "msgwire", proto: "udp"})
+	}
+	if c := eligibleClient(rng, p, false); c != "" && len(out) > 0 {
+		donor := out[rng.IntN(min(len(out), 12))]
+		out = append(out, ident{client: c, edns: true, entry: e1, proto: p1, opts: donor.opts})
+	}
+	return out
+}
+
+func (id ident) query(rng *rand.Rand, name string, qtype uint16) Op {
+	q := QSpec{Name: name, Qtype: qtype, ID: uint16(rng.UintN(65536)), RD: true, EDNS: id.edns}
+	if id.edns {
+		q.UDPSize = 1232
+		q.DO = rng.IntN(4) == 0
+		q.Opts = id.opts
+	}
+	return Op{Kind: "q", Client: id.client, Entry: id.entry, Proto: id.proto, Q: q}
+}
+
+func genScenarioB(r *vlib.Run, idx int) *Scenario {
+	rng := r.RandN("B", idx)
+	p := genPolicy(rng, 1)
+	if idx%3 != 0 {
+		p.Networks = nil
+	}
+	p.CapSec = []int{0, 20, 60, 60}[idx%4]
+	p.Prefetch = []int{50, 0, 50, 80, 20}[idx%5]
+	sc := &Scenario{Part: "B", Index: idx, Policy: p}
+	m := newModel(p)
+	ids := genIdents(rng, p)
+	if len(ids) == 0 {
+		return sc
+	}
+	fl := m.f4
+	fields := []string{"sd0-t300", "sd8-t3600", "sd1-t300", "sm1-t300", "sm2-t3600", fmt.Sprintf("sa%d-t300", fl), fmt.Sprintf("sa%d-t300", fl+1),
+		fmt.Sprintf("sa%d-t300", max(fl-1, 1)), fmt.Sprintf("sa%d-t3600", max(min(m.c4, fl)-3, 1)), "sn-t300", "t300", "sa0-t300",
+		fmt.Sprintf("sf%d-t300", min(m.c4, fl)), fmt.Sprintf("sa%d-t300", m.f6), fmt.Sprintf("sa%d-t300", max(min(m.c6, m.f6)-5, 1)), "sd8-t40", "sa1-t300"}
+	nEp := 7
+	for ep := 0; ep < nEp; ep++ {
+		f := pick(rng, fields)
+		name := uname("b", idx, ep, f, "b.c19.test.")
+		qtype := pick(rng, []uint16{dns.TypeA, dns.TypeA, dns.TypeAAAA, dns.TypeTXT})
+		ru := parseRule(name)
+		life := int(ru.ttl)
+		scoped := ru.mode != "" && ru.mode != "n" && !(ru.mode == "a" && ru.val == 0)
+		if scoped && p.CapSec > 0 && p.CapSec < life {
+			life = p.CapSec
+		}
+		prim := ids[rng.IntN(min(len(ids), 12))]
+		add := func(id ident) { sc.Ops = append(sc.Ops, id.query(rng, name, qtype)) }
+		add(prim)
+		add(prim)
+		for k := 0; k < 3; k++ {
+			add(pick(rng, ids))
+		}
+		sc.Ops = append(sc.Ops, Op{Kind: "adv", AdvSec: life * 7 / 10})
+		add(prim)
+		add(pick(rng, ids))
+		add(prim)
+		sc.Ops = append(sc.Ops, Op{Kind: "adv", AdvSec: life*3/10 + 1})
+		add(prim)
+		add(pick(rng, ids))
+	}
+	return sc
+}
+
+func runPartB(r *vlib.Run) {
+	nSc := r.N(40, 700)
+	for i := 0; i < nSc; i++ {
+		runScenario(r, genScenarioB(r, i))
+		r.Progress("part B scenario %d/%d", i+1, nSc)
+	}
+	r.Note("part_b", fmt.Sprintf("%d scenarios x 7 episodes", nSc))
+}
+
+var _ = netip.Addr{}
